@@ -96,7 +96,7 @@ R["C02"] = {"harnesses": [H("H_Merge", MERGE_Q + [MERGE_LIT], None, ["merge/end"
             "outside_bound": ["documents and patches outside the listed families (more members, deeper nesting)"]}
 R["C03"] = {"harnesses": [
     H("H_CreateBig", [{}], None, ["createbig/end"], "numbers that float64 cannot hold exactly (2^53+1, 19 fractional digits, 23 digits, 1E5, 1e400) on a fresh pooled decoder state: carried into the patch verbatim; two members whose values in A and B are neighbouring 16-digit integers / 17-digit decimals with a symbolic last digit (different numbers that one float64 may not tell apart): in the patch exactly when the digits differ"),
-    H("H_Create", [{"m": 2, "vals": 47}, {"m": 1, "vals": 262143}, {"m": 2, "vals": 65537}], [{"m": 2, "vals": 255}, {"m": 1, "vals": 262143}, {"m": 2, "vals": 196611}],
+    H("H_Create", [{"m": 2, "vals": 47}, {"m": 1, "vals": 262143}, {"m": 2, "vals": 65537}], [{"m": 2, "vals": 255}, {"m": 1, "vals": 262143}, {"m": 2, "vals": 65537}],
       ["create/end", "create/no-null-target"], CREATE_BOUND),
     H("H_CreateArr", [{"vals": 31}], None, ["createarr/end", "createarr/rejected"], "arrays of 0..2 objects of <= 1 member each (first five value shapes)"),
     H("H_CreateReject", [{}], None, ["createreject/accepted", "createreject/rejected"], "all 49 pairs of 7 root kinds")],
@@ -262,8 +262,8 @@ R["C18"] = {"harnesses": [H("H_Legacy_Apply", [L_K1_Q, L_K2_FLAT, L_K2_INNER, L_
     "outside_bound": AP_OUTSIDE}
 R["C19"] = {"harnesses": [
     H("H_Merge", MERGE_Q, None, ["merge/end", "merge/object-patch"], MERGE_BOUND + " (asserted for object and array patches)", target="legacy"),
-    H("H_MergeMerge", [MM_Q[0], {"docm": 1, "docvals": 2, "patchm": 2, "patchvals": 4, "nonobjdocs": 0}], [MM_Q[0], MM_Q[2], {"docm": 1, "docvals": 3, "patchm": 2, "patchvals": 5, "nonobjdocs": 0}], ["mm/end"], MM_BOUND, target="legacy"),
-    H("H_Create_Legacy", [{"m": 2, "vals": 7}, {"m": 1, "vals": 65535}], [{"m": 2, "vals": 23}, {"m": 1, "vals": 65535}], ["create/end"], CREATE_BOUND + "; numbers are CONCRETE one-digit integers (the legacy path goes through float64; no float theory in the engine)", target="legacy"),
+    H("H_MergeMerge", [MM_Q[0], {"docm": 1, "docvals": 2, "patchm": 2, "patchvals": 4, "nonobjdocs": 0}], [MM_Q[0], MM_Q[2], {"docm": 1, "docvals": 2, "patchm": 2, "patchvals": 4, "nonobjdocs": 0}], ["mm/end"], MM_BOUND, target="legacy"),
+    H("H_Create_Legacy", [{"m": 2, "vals": 7}, {"m": 1, "vals": 65535}], [{"m": 2, "vals": 7}, {"m": 1, "vals": 65535}], ["create/end"], CREATE_BOUND + "; numbers are CONCRETE one-digit integers (the legacy path goes through float64; no float theory in the engine)", target="legacy"),
     H("H_Equal", [{"nshapes": 20, "modes": 29, "containers": 1}, {"nshapes": 23, "modes": 16, "containers": 1, "escmask": 1}], None, ["equal/true", "equal/false"], EQ_BOUND + " (object and array roots, no escaped spellings)", target="legacy")],
     "anchors": ["json-patch.doMergePatch", "json-patch.mergeDocs", "json-patch.pruneNulls", "json-patch.CreateMergePatch", "json-patch.getDiff", "json-patch.matchesValue", "json-patch.Equal", "(*github.com/evanphx/json-patch.lazyNode).equal"],
     "assumptions": ["staged legacy module as for C18", "CreateMergePatch numbers concrete plain integers (float64-exact)", "Equal on object/array roots without escapes (property)"],
